@@ -627,7 +627,10 @@ path = "src/lib.rs""#
         }
 
         // Add dependencies from rust:: imports
-        for (crate_name, version_spec) in &self.rust_crate_deps {
+        // Sorted: the map's iteration order differs from process to process, the manifest must not.
+        let mut rust_deps: Vec<(&String, &Option<String>)> = self.rust_crate_deps.iter().collect();
+        rust_deps.sort_by(|a, b| a.0.cmp(b.0));
+        for (crate_name, version_spec) in rust_deps {
             // Skip if already added above
             if added_crates.contains(crate_name.as_str()) {
                 continue;
